@@ -362,6 +362,7 @@ def check(ctx, run):
         num_ok = False
         raw_for_num = False
         unjust_false = []
+        undecoded_raw = []
         for p in ps:
             if p.end[0] != 'return':
                 continue
@@ -379,6 +380,12 @@ def check(ctx, run):
             dec_failed = any(c[0][0] == 'discr' and is_call(c[0][1], 'Number::decode') and not (c[1] == 'eq' and c[2] == 0) for c in p.conds)
             if is_num and not dec_failed and len(both_ok) < 2 and r[0] == 'const' and r[1] is False:
                 unjust_false.append('; '.join(f'{show(c[0])[:60]} {c[1]} {c[2]}' for c in p.conds if c not in tc)[:200])
+            if is_num and not dec_failed and len(both_ok) < 2 and r[0] == 'call' and 'Number' not in r[1] and canon(r[1]).split('::')[-1] in ('eq', 'ne', 'cmp', 'partial_cmp') \
+                    and not any(is_call(s_, 'Number::decode') for s_ in subterms(r)):
+                undecoded_raw.append('; '.join(f'{show(c[0])[:60]} {c[1]} {c[2]}' for c in p.conds if c not in tc)[:200])
+        if undecoded_raw and num_ok and not raw_for_num:
+            run.violation('R12.1', b.path, 'numbers[undecoded-raw]', f'a pair of NUMBER_TAG payloads is answered by comparing the payload bytes on a path where no decode failed ({undecoded_raw[0]}): '
+                          'equal numbers in different encodings of the same width (Int64(7) / UInt64(7), 4294967296 / 4294967296.0) stop matching', f'{b.file}:{b.line}')
         if unjust_false and num_ok and not raw_for_num:
             run.violation('R12.1', b.path, 'numbers[undecoded-false]', f'a pair of NUMBER_TAG payloads is answered false on a path that never compares the decoded numbers ({unjust_false[0]}): '
                           'equal numbers in different encodings of the same width (Int64(7) / UInt64(7), 4294967296 / 4294967296.0) stop matching', f'{b.file}:{b.line}')
